@@ -1298,6 +1298,28 @@ pub fn explicit_cells(seed: u64) -> Vec<Scenario> {
             }
         }
     }
+    // D. delta A B with a differ that also writes warnings on stderr (CRLF conversion warnings, one or
+    //    two per file): little, more than one pipe buffer, much more - before or after its stdout
+    for st in [0i32, 1] {
+        for (lclass, len) in [("line", 60usize), ("70k", 70_000), ("200k", 200_000)] {
+            for stderr_first in [false, true] {
+                let mut spec = RunSpec::default();
+                spec.plan = Plan::basic(mix(seed, &[tag("cellhash3"), out.len() as u64]));
+                spec.args = vec!["--paging".into(), "never".into(), "--no-gitconfig".into(), "--width".into(), "100".into(), "a.txt".into(), "b.txt".into()];
+                spec.files = vec![("a.txt".into(), Blob::from("one\n")), ("b.txt".into(), Blob::from("two\n"))];
+                let mut warn = String::new();
+                let mut k = 0;
+                while warn.len() < len {
+                    warn.push_str(&format!("warning: in the working copy of 'dir/file{}.txt', CRLF will be replaced by LF the next time Git touches it\n", k));
+                    k += 1;
+                }
+                let outp = if st == 1 { diff.clone() } else { Vec::new() };
+                spec.child = Some(ChildSetup { names: vec!["git".into(), "diff".into()], stdout: outp.into(), stderr: warn.into(), stderr_first, exit: st, git_version: "git version 2.45.1".into() });
+                spec.pager = Some(pg(0));
+                out.push(Scenario { name: format!("cell-diff2-warnings-{}-{}-{}", st, lclass, stderr_first), kind: "diff2".into(), sub: format!("warnings-{}-status{}", lclass, st), spec, paging: "never".into(), expect_exit: st, tokens: if st == 1 { tokens.clone() } else { vec![] }, pager_model: None, stderr_may_be_nonempty: true, check_selection: false, light: true });
+            }
+        }
+    }
     out
 }
 
